@@ -2,7 +2,7 @@
 # C02: hexsim executes every instruction exactly as the Hex ISA defines (DESIGN.md section 4, C02).
 from simlib import *
 
-def step_compare(ck, sim, ref, trunc=1, label='step', extra_assume=(), impl_mutator=None):
+def step_compare(ck, sim, ref, trunc=1, label='step', extra_assume=(), steps=1, junk_hidden=False):
     """one Processor::run iteration from an arbitrary state against ref_step() of hexb.pdf"""
     pc, a, b, o = [z3.BitVec(n, 32) for n in ('pc', 'areg', 'breg', 'oreg')]
     mem = z3.Array('mem', z3.BitVecSort(32), z3.BitVecSort(32))
@@ -11,14 +11,50 @@ def step_compare(ck, sim, ref, trunc=1, label='step', extra_assume=(), impl_muta
     assume, ins, opc, opr = isa_assumptions(pc, a, b, o, mem)
     assume += [z3.UGE(cyc, 1), z3.ULT(cyc, 1 << 40)] + list(extra_assume)
     EI = sim.engine(); io_cut_stubs(EI, lambda k: inb)
-    def trace_stub(E_, st, a_): st.events.append(('trace',) + tuple(a_[1:])); return None
-    st = State(); st.pc = list(assume)
-    p = sim.new_proc(st, mem)
+    st = State()
+    # the object comes from its real constructor: members outside the architectural state hold their constructed values,
+    # so any hidden state the step function keeps between instructions is exercised by the multi-step obligation
+    st, p = sim.constructed_proc(EI, st, mem)
+    st.pc = list(st.pc) + list(assume)
+    hidden = []
+    if junk_hidden:
+        # every member the constructor initialises and this harness does not know is given an arbitrary value: the
+        # architectural successor must not depend on it (a step function with state outside pc/areg/breg/oreg/memory
+        # does not yield 'the' ISA successor of an architectural state)
+        known = []
+        for n_, w_ in FW.items(): known.append((sim.off[n_], sim.off[n_] + w_))
+        known += [(sim.off['memory'], sim.off['memory'] + 4*sim.memwords), (sim.off['io'], sim.off['io'] + sim.io_size), (sim.off['out'], sim.off['out'] + 8),
+                  (sim.off['debugInfo'], sim.off['debugInfo'] + 24), (sim.off['debugInfoMap'], sim.off['debugInfoMap'] + 48)]
+        o_ = st.wobj(p.obj)
+        for off_, (sz_, val_) in sorted(o_.cells.items()):
+            if any(lo <= off_ < hi for lo, hi in known) or isinstance(val_, (Ptr, PtrIte, Undef)): continue
+            j_ = z3.BitVec(f'hidden_member_at_{off_}', 8*sz_); o_.cells[off_] = (sz_, j_); hidden.append((off_, j_))
+        for lo_, hi_ in list(o_.zero):
+            for off_ in range(lo_, hi_, 4):
+                if off_ + 4 <= hi_ and not any(lo <= off_ < hi for lo, hi in known) and off_ not in o_.cells:
+                    j_ = z3.BitVec(f'hidden_member_at_{off_}', 32); o_.cells[off_] = (4, j_); hidden.append((off_, j_))
+    ck.cov.setdefault('hidden_members', [])
+    ck.cov['hidden_members'] = [off_ for off_, _ in hidden] or ck.cov['hidden_members']
     for n, v in (('pc', pc), ('areg', a), ('breg', b), ('oreg', o)): sim.setf(EI, st, p, n, v)
     sim.setf(EI, st, p, 'truncateInputs', trunc); sim.setf(EI, st, p, 'running', 1); sim.setf(EI, st, p, 'tracing', 0)
     sim.setf(EI, st, p, 'exitCode', exit0); sim.setf(EI, st, p, 'cycles', cyc); sim.setf(EI, st, p, 'maxCycles', cyc)
-    # instr, lastPC, instrEnum are written before they are read by run(); left uninitialised on purpose (C12 obligation 2)
     resI = EI.run('s_run', [p], st)
+    for extra in range(steps - 1):
+        # continue each returning path by one more iteration of run(); the next instruction must lie inside the
+        # property's quantifier too, so its conditions are assumed on the successor state
+        nxt = []
+        for rI in resI:
+            if rI.kind != 'ret': nxt.append(rI); continue
+            s1 = rI.st
+            run1 = sim.getf(EI, s1, p, 'running')
+            if is_c(run1) and run1 == 0: continue          # the program exited on the first instruction
+            a2, _, _, _ = isa_assumptions(bv(sim.getf(EI, s1, p, 'pc'), 32), bv(sim.getf(EI, s1, p, 'areg'), 32), bv(sim.getf(EI, s1, p, 'breg'), 32),
+                                          bv(sim.getf(EI, s1, p, 'oreg'), 32), sim.mem(s1, p).full())
+            s1.pc = list(s1.pc) + a2; s1.model = None
+            if not EI.sat(s1)[0]: continue
+            sim.setf(EI, s1, p, 'maxCycles', cyc + 1 + extra)
+            nxt += EI.run('s_run', [p], s1)
+        resI = nxt
     ER = ref.engine(); Ref.io_stubs(ER, lambda k: inb)
     nprod = 0
     for rI in resI:
@@ -28,10 +64,19 @@ def step_compare(ck, sim, ref, trunc=1, label='step', extra_assume=(), impl_muta
             report_step(ck, sim, m, (pc, a, b, o, mem, inb), f"{label}: implementation path ends in {rI.kind}: {rI.val}", trunc)
             continue
         sr = ref.state(sI.pc, dict(pc=pc, areg=a, breg=b, oreg=o), mem, exit0=exit0)
-        for rR in ER.run('ref_step', [], sr):
+        refruns = ER.run('ref_step', [], sr)
+        for extra in range(steps - 1):
+            nxt = []
+            for rR in refruns:
+                if rR.kind != 'ret': nxt.append(rR); continue
+                if is_c(Ref.reg(rR.st, 'running')) and Ref.reg(rR.st, 'running') == 0: nxt.append(rR); continue
+                nxt += ER.run('ref_step', [], rR.st)
+            refruns = nxt
+        for rR in refruns:
             sR = rR.st
             if rR.kind != 'ret':
-                ck.fail_inconclusive(f"reference path ended in {rR.kind}: {rR.val}"); continue
+                # the reference left the property's quantifier on the second step (undefined instruction, address out of range): outside
+                continue
             nprod += 1
             diffs = []
             for nm in ('pc', 'areg', 'breg', 'oreg'):
@@ -53,7 +98,11 @@ def step_compare(ck, sim, ref, trunc=1, label='step', extra_assume=(), impl_muta
                 pass
             ok, m = ck.prove(ER, sR, z3.Not(z3.Or(diffs)), f"{label}: successor state, memory, running/exit value and I/O events equal the reference")
             if not ok:
-                report_step(ck, sim, m, (pc, a, b, o, mem, inb), f"{label}: successor differs from the ISA reference", trunc)
+                if junk_hidden and not any(v[0].startswith('step:') for v in ck.violations):
+                    dep = [off_ for off_, j_ in hidden]
+                    confirm_hidden(ck, sim, dep, {str(j_): model_int(m, j_) for off_, j_ in hidden}, (model_int(m, pc), model_int(m, ins)))
+                else:
+                    report_step(ck, sim, m, (pc, a, b, o, mem, inb), f"{label}: successor differs from the ISA reference", trunc)
             elif len(ck.cov['samples']) < 6:
                 ck.sample({'impl_path': [str(z3.simplify(c))[:70] for c in sI.pc[len(assume):]][:4], 'events': [e[0] for e in evI]})
     ck.engine(EI, 'hexsim::Processor::run (one iteration) + syscall'); ck.engine(ER, 'ref_step (hexb.pdf)')
@@ -95,6 +144,47 @@ def report_step(ck, sim, m, syms, what, trunc):
     rp = ck.replay_file(key, {'native_input': line, 'native_output': out.strip(), 'expected': {k: v for k, v in exp.items() if k != 'mem'}})
     ck.violation(key, what + f" [state pc={vals['pc']} areg={vals['areg']:#x} breg={vals['breg']:#x} oreg={vals['oreg']:#x} instr={insb:#04x}]", rp, confirmed)
 
+def confirm_hidden(ck, sim, offsets, junk, where):
+    """the step depends on members outside the architectural state. Confirm on the native build with self-modifying
+    sequences: a store rewrites the word being executed and execution continues into the rewritten bytes."""
+    nat = sim.native(); found = None
+    for w0 in (3, 10):
+        for (x_old, x_new) in ((0x31, 0x30), (0x41, 0x42), (0x35, 0x3A)):
+            for store in ('STAM', 'STAI'):
+                n = 40
+                if store == 'STAM': b0 = [0x00 | 0, 0x20 | w0 if w0 < 16 else None]
+                # LDAM n (prefix + op) ; STAM w0 ; X ; pad   -- keep it to one word: n < 16 is not possible for 40, so use PFIX
+                seq = None
+                for layout in (1,):
+                    # word w0: [PFIX 2, LDAM 8] = LDAM 40 ; word w0+... keep simple: place LDAM 40 in word w0-1 (bytes 2,3), then word w0 = [STAM w0 | X | LDBM 1 | LDBM 1]
+                    words = {}
+                    words[w0 - 1] = (0xE2 << 16) | (0x08 << 24)           # bytes 2,3 of the previous word: PFIX 2 ; LDAM 8  -> areg = mem[40]
+                    if store == 'STAM': first = 0x20 | w0
+                    else: first = 0x80 | w0                                 # STAI w0 with breg = 0
+                    words[w0] = first | (x_old << 8) | (0x41 << 16) | (0x41 << 24)
+                    words[40] = first | (x_new << 8) | (0x41 << 16) | (0x41 << 24)
+                    pc0 = 4*(w0 - 1) + 2
+                    regs = dict(pc=pc0, areg=0, breg=0, oreg=0, inb=0)
+                    memd = dict(words)
+                    exp = None; r_ = dict(regs); md = dict(memd)
+                    for k in range(4):
+                        e = isa_step_concrete(r_, md); r_ = dict(pc=e['pc'], areg=e['areg'], breg=e['breg'], oreg=e['oreg'], inb=0); md = e['mem']
+                    line = f"stepn 4 {pc0} 0 0 0 1 " + ' '.join(f"m {i} {v}" for i, v in sorted(words.items()))
+                    out, _ = run_native(nat, line + "\n"); t = out.split()
+                    try: got = dict(pc=int(t[0]), areg=int(t[1]), breg=int(t[2]), oreg=int(t[3]))
+                    except Exception: continue
+                    if any(got[k] != r_[k] for k in ('pc', 'areg', 'breg', 'oreg')):
+                        found = dict(native_input=line, native=got, isa={k: r_[k] for k in ('pc', 'areg', 'breg', 'oreg')}); break
+                if found: break
+            if found: break
+        if found: break
+    key = "hidden-state"
+    what = (f"the step function depends on members outside the architectural state (object offsets {offsets}): with arbitrary values there the successor of instruction "
+            f"{where[1]:#04x} at pc {where[0]} differs from the ISA reference")
+    rp = ck.replay_file(key, {'dependent_offsets': offsets, 'junk_values': junk, 'native_self_modifying_witness': found})
+    if found: what += f"; native witness: {found['native_input']} -> {found['native']} but the ISA gives {found['isa']}"
+    ck.violation(key, what, rp, found is not None)
+
 def isa_step_concrete(r, mem):
     """independent concrete ISA step (hexb.pdf) for replay comparison"""
     M = 0xffffffff
@@ -131,6 +221,14 @@ def isa_step_concrete(r, mem):
             elif a == 2: mem[(sp + 1) & M] = r['inb'] & 0xff
         o = 0
     return dict(pc=pc, areg=a, breg=b, oreg=o, running=running, exit=ex, out=out, mem=mem)
+
+def hidden_state(ck, sim, ref):
+    """noninterference: the step from an object whose non-architectural, constructor-initialised members hold arbitrary
+    values must still equal the reference step. On the shipped code there are no such members and this adds nothing; a
+    fetch buffer, decoded-instruction cache or the like makes the successor depend on them."""
+    before = len(ck.violations) + len(ck.inconclusive)
+    ni, nprod = step_compare(ck, sim, ref, trunc=1, label='hidden-state', junk_hidden=True)
+    return ni, nprod
 
 def selfcheck(ck, sim, rnd, n=40):
     """engine validation: concrete random states through the native build and through the interpreter"""
@@ -268,6 +366,7 @@ def main():
     sim = Sim(); ref = Ref()
     selfcheck(ck, sim, rnd, 40 if ck.tier == 'quick' else 400)
     ni, nprod = step_compare(ck, sim, ref, trunc=1)
+    ni2, nprod2 = hidden_state(ck, sim, ref)
     sim2 = Sim(noinline=False)
     routing(ck, sim2)
     import loader
@@ -276,14 +375,15 @@ def main():
               "HexSimIO::output/input cut to (byte, stream) events in the step comparison; their routing is decided by a separate obligation with std::ostream/istream/fstream members stubbed as events (file name checked, file contents outside)",
               "truncateInputs = true (the CLI default); tracing off (trace is covered by C12/C15)",
               "reference = docs/PDFs/hexb.pdf simulator transcribed to ref/hexref.c, run by the same engine; exit value = mem[sp+2] per the repository's syscall ABI",
-              "one step from an arbitrary state: inductive for all finite runs",
+              "one step from an arbitrary architectural state: inductive for all finite runs provided the step function keeps no state outside (pc, areg, breg, oreg, memory); "
+              "that proviso is a second obligation: every other constructor-initialised member of the object is given an arbitrary value and the successor must still equal the reference (noninterference); a dependence is reported with the member's offset and confirmed natively by a self-modifying two-instruction search (thorough tier additionally runs two consecutive symbolic steps)",
               "loader: std::ifstream members stubbed over a symbolic byte string; header word == number of image words; n <= bound")
     ck.crosscheck()
     ck.finish("One iteration of hexsim::Processor::run (+ syscall) is executed symbolically from an arbitrary architectural state "
               "(pc, areg, breg, oreg 32-bit symbolic, whole memory an SMT array, input byte symbolic) and compared per path product with ref_step() "
               "of the hexb.pdf reference run from the same state: registers, extensional memory equality (fresh index), running flag, exit value, I/O events. "
               "Further obligations: stream routing of HexSimIO with symbolic stream number and connection flags; the image loader on symbolic files.",
-              {'impl_paths': ni, 'path_products': nprod})
+              {'impl_paths': ni, 'path_products': nprod, 'hidden_state_impl_paths': ni2, 'hidden_state_path_products': nprod2})
 
 if __name__ == '__main__':
     from lib.report import guarded
